@@ -101,6 +101,8 @@ def check_c13(e, v, bad):
     """-> list of (what, key, relation, detail)"""
     out = []
     for b in bad:
+        if b[0] in ("foreign-method-object", "foreign-class-object"):
+            out.append(("the analysis holds an object that belongs to no DEX of this analysis", None, "identity", list(b)))
         if b[0] in ("method-object", "method-hash", "method-external-flag", "class-lists-foreign-method",
                     "class-method-lists-differ-from-methods", "unregistered-method-object",
                     "unregistered-class-object", "class-mismatch", "class-key"):
@@ -124,6 +126,8 @@ def check_c13(e, v, bad):
 def check_c15(e, v, bad):
     out = []
     for b in bad:
+        if b[0] == "foreign-class-object":
+            out.append(("the analysis holds a class object that belongs to no DEX of this analysis", None, "identity", list(b)))
         if b[0] in ("string-key", "unregistered-class-object", "unregistered-method-object", "class-mismatch"):
             out.append(("an xref names an object that is not the one registered under its key", None, "identity", list(b)))
     _cmp("strings", e["strings"], v["strings"], out, "string table differs from pool strings plus const-string operands")
@@ -148,6 +152,8 @@ def check_c14(e, v, bad, fa):
     for b in bad:
         if b[0] in ("field-analysis-of-other-object",):
             out.append(("get_field_analysis returns the analysis of another field object", None, "identity", list(b)))
+        if b[0] == "foreign-field-object":
+            out.append(("a field access is recorded on an EncodedField that belongs to no DEX of this analysis", None, "identity", list(b)))
     _cmp("mRead", e["mRead"], v["mRead"], out, "the accessing method does not list exactly the fields it reads")
     _cmp("mWrite", e["mWrite"], v["mWrite"], out, "the accessing method does not list exactly the fields it writes")
     m_ok = e["mRead"] == v["mRead"] and e["mWrite"] == v["mWrite"]
